@@ -55,6 +55,53 @@ def no_narrowing(ck, rule):
     ck.ok(rule, "reader-chain:precision", fns[0].where if fns else "", f"{n} calls in the CMAP reader chain: no narrowing conversion of coordinates")
 
 
+def column_names(ck, rule):
+    """the column names come from the first line that starts with the header prefix: stripped, split on white space, without
+    the prefix token itself"""
+    from ..rules.common import merged_return, self_attr
+    p = ck.ctx.p
+    ck.clause(rule, "column names = tokens of the first '#h' line after the prefix token")
+    cls = p.find_class("BionanoFileReader")
+    fn = None
+    for m in cls.methods.values():
+        if m.name not in ("__init__", "readFile") and "split" in ast.unparse(m.node):
+            fn = m
+    if fn is None:
+        raise AnalysisError(f"{cls.where}: header-line parser of BionanoFileReader not found")
+    v, pa = merged_return(ck, fn)
+    w = where(fn, pa.node)
+    file_p = V(fn.call_params()[0].name)
+    # [1:] of split(whitespace, strip(first line of dropwhile(not startswith(prefix), file)))
+    ok_slice = v[0] == "slice" and v[2] == C(1) and v[3] == T.NONE and v[4] == T.NONE
+    ck.judge(ok_slice, rule, short(fn) + ":drop-prefix-token", w, "the first token (the '#h' marker) is dropped, all others kept",
+             found=T.show(v)[:160], required="tokens[1:]")
+    inner = v[1] if v[0] == "slice" else v
+    split_ok = inner[0] == "call" and inner[1].endswith("split") and len(inner[2]) == 2 and inner[2][0] == C("\\s+") or \
+        (inner[0] == "mcall" and inner[2] == "split" and not inner[3])
+    ck.judge(bool(split_ok), rule, short(fn) + ":split", w, "the header line is split on runs of white space",
+             found=T.show(inner)[:160], required="re.split(r'\\s+', line) / line.split()")
+    drops = [x for x in T.subterms(v) if x[0] == "call" and x[1].endswith("dropwhile") and len(x[2]) == 2]
+    filters = [x for x in T.subterms(v) if x[0] == "comp" and len(x[3]) == 1 and x[3][0][0] == file_p and x[2][0] == "bv"]
+    if drops:
+        pred, src = drops[0][2]
+        body = T.as_bool(pred[2]) if pred[0] == "lam" else None
+        want_not_start = body is not None and body[0] == "not" and body[1][0] == "mcall" and body[1][2] == "startswith" \
+            and body[1][3] == (self_attr("headersLinePrefix"),)
+        ck.judge(bool(want_not_start) and src == file_p, rule, short(fn) + ":header-line", w,
+                 "lines are skipped until the first one that starts with the reader's header prefix",
+                 found=T.show(drops[0])[:200], required="dropwhile(lambda l: not l.startswith(self.headersLinePrefix), file)")
+    elif filters:
+        ifs = filters[0][3][0][1]
+        okf = len(ifs) == 1 and ifs[0][0] == "mcall" and ifs[0][2] == "startswith" and ifs[0][1] == filters[0][2] \
+            and ifs[0][3] == (self_attr("headersLinePrefix"),)
+        ck.judge(bool(okf), rule, short(fn) + ":header-line", w, "only lines that start with the reader's header prefix are considered",
+                 found=T.show(filters[0])[:200], required="(l for l in file if l.startswith(self.headersLinePrefix))")
+    else:
+        raise AnalysisError(f"{w}: the search for the header line is neither a dropwhile nor a filter over the file: {T.show(v)[:160]}")
+    first = [x for x in T.subterms(v) if (x[0] == "idx" and x[2] == C(0)) or (x[0] == "call" and x[1] == "next")]
+    ck.judge(bool(first), rule, short(fn) + ":first-line", w, "the first such line is taken", found=T.show(v)[:160])
+
+
 def reader_is_stateless(ck, rule):
     """what a file is parsed into does not depend on the files read before through the same reader object"""
     from ..rules.effects import self_state_writes
@@ -94,6 +141,7 @@ def run(ck):
     ck.clause("C17.5", "trim formulae")
     id_filters(ck, "C17.3", "C17.1")
     reader_is_stateless(ck, "C17.7")
+    column_names(ck, "C17.8")
     cr = p.find_class("CmapReader")
     from ..rules.common import cmap_reader_methods
     read, parse = cmap_reader_methods(ck)
